@@ -262,28 +262,30 @@ Definition send_join_core (i : sj_input) : bool :=
 Lemma send_join_checks_ok sign i log0 :
   er_out (send_join_checks sign i log0) = OOk ->
   send_join_core i = true /\
+  (bytes_eqb (sj_version i) v_pseudo_ids = true -> sj_store_ok i = true) /\
   er_event (send_join_checks sign i log0) = Some (sign (sj_local_name i) (sj_key_id i) (sj_event i)) /\
   er_already_joined (send_join_checks sign i log0) =
     match sj_membership i with Some cur => bytes_eqb cur s_join | None => false end.
 Proof.
   unfold send_join_checks, send_join_core, is_join_event, sender_of_server, verified, authoriser_local.
-  destruct (sj_sender i) as [| |dom]; simpl; try discriminate.
-  destruct (bytes_eqb dom (sj_origin i)); simpl; [|discriminate].
-  destruct (bytes_eqb (ef_room_id (sj_fields i)) (sj_req_room i)); simpl; [|discriminate].
-  destruct (bytes_eqb (ef_event_id (sj_fields i)) (sj_req_event_id i)); simpl; [|discriminate].
-  destruct (bytes_eqb (ef_type (sj_fields i)) m_room_member); simpl; [|discriminate].
-  destruct (ef_membership (sj_fields i)) as [m|]; simpl; [|discriminate].
-  destruct (bytes_eqb m s_join); simpl; [|discriminate].
-  destruct (sj_redact_ok i); simpl; [|discriminate].
-  destruct (sj_verify i); simpl; try discriminate.
-  destruct (sj_membership i) as [cur|]; simpl; [|discriminate].
-  destruct (bytes_eqb cur s_ban); simpl; [discriminate|].
-  destruct (ef_content_ok (sj_fields i)); simpl; [|discriminate].
-  destruct (ef_authorised_via (sj_fields i)) as [|c via]; simpl.
-  - intros _. repeat split.
-  - destruct (sj_authvia_domain i) as [d|]; simpl; [|discriminate].
-    destruct (bytes_eqb d (sj_local_name i)); simpl; [|discriminate].
-    intros _. repeat split.
+  destruct (bytes_eqb (sj_version i) v_pseudo_ids) eqn:Ep.
+  all: destruct (sj_sender i) as [| |dom]; simpl; try discriminate.
+  all: destruct (bytes_eqb dom (sj_origin i)); simpl; [|discriminate].
+  all: destruct (bytes_eqb (ef_room_id (sj_fields i)) (sj_req_room i)); simpl; [|discriminate].
+  all: destruct (bytes_eqb (ef_event_id (sj_fields i)) (sj_req_event_id i)); simpl; [|discriminate].
+  all: destruct (bytes_eqb (ef_type (sj_fields i)) m_room_member); simpl; [|discriminate].
+  all: destruct (ef_membership (sj_fields i)) as [m|]; simpl; [|discriminate].
+  all: destruct (bytes_eqb m s_join); simpl; [|discriminate].
+  all: destruct (sj_redact_ok i); simpl; [|discriminate].
+  all: destruct (sj_verify i); simpl; try discriminate.
+  all: destruct (sj_membership i) as [cur|]; simpl; [|discriminate].
+  all: destruct (bytes_eqb cur s_ban); simpl; [discriminate|].
+  all: destruct (ef_content_ok (sj_fields i)); simpl; [|discriminate].
+  all: destruct (ef_authorised_via (sj_fields i)) as [|c via]; simpl.
+  all: try (destruct (sj_authvia_domain i) as [d|]; simpl; [|discriminate];
+            destruct (bytes_eqb d (sj_local_name i)); simpl; [|discriminate]).
+  all: try (destruct (sj_store_ok i); simpl; [|discriminate]).
+  all: intros _; repeat split; try reflexivity; try (intro; discriminate).
 Qed.
 
 Lemma send_join_ok sign i :
@@ -299,23 +301,14 @@ Proof.
   destruct (ef_state_key (sj_fields i)) as [k|]; simpl; [|discriminate].
   destruct (bytes_eqb k []) eqn:Ek0; simpl; [discriminate|].
   destruct (bytes_eqb k (ef_sender (sj_fields i))) eqn:Eks; simpl; [|discriminate].
-  assert (Fin : forall log0, er_out (send_join_checks sign i log0) = OOk ->
-    is_join_event (sj_fields i) && true && bytes_eqb (ef_room_id (sj_fields i)) (sj_req_room i) &&
-    bytes_eqb (ef_event_id (sj_fields i)) (sj_req_event_id i) &&
-    sender_of_server (sj_sender i) (sj_origin i) && verified (sj_verify i) &&
-    match sj_membership i with Some cur => negb (bytes_eqb cur s_ban) | None => false end &&
-    authoriser_local (sj_fields i) (sj_authvia_domain i) (sj_local_name i) = true /\
-    er_event (send_join_checks sign i log0) = Some (sign (sj_local_name i) (sj_key_id i) (sj_event i)) /\
-    er_already_joined (send_join_checks sign i log0) =
-      match sj_membership i with Some cur => bytes_eqb cur s_join | None => false end).
-  { intros log0 H. destruct (send_join_checks_ok sign i log0 H) as [A B].
-    split; [|exact B]. unfold send_join_core in A. rewrite andb_true_r. exact A. }
-  destruct (bytes_eqb (sj_version i) v_pseudo_ids).
+  destruct (bytes_eqb (sj_version i) v_pseudo_ids) eqn:Ep; simpl.
   - destruct (sj_mapping_ok i); simpl; [|discriminate].
+    destruct (sj_mapping_key_ok i); simpl; [|discriminate].
     destruct (sj_mapping_sig_ok i); simpl; [|discriminate].
-    destruct (sj_store_ok i); simpl; [|discriminate].
-    apply Fin.
-  - apply Fin.
+    intro H. destruct (send_join_checks_ok sign i [] H) as [A [S B]].
+    split; [|exact B]. unfold send_join_core in A. rewrite (S Ep). rewrite !andb_true_r. exact A.
+  - intro H. destruct (send_join_checks_ok sign i [] H) as [A [S B]].
+    split; [|exact B]. unfold send_join_core in A. rewrite !andb_true_r. exact A.
 Qed.
 
 (* ---------------------------------------------------------------------------------- *)
@@ -410,6 +403,7 @@ Proof.
   destruct (bytes_eqb (pa_type e) m_room_create); simpl; [|exact IH].
   destruct (pa_state_key e) as [k|]; simpl; [|exact IH].
   destruct (bytes_eqb k []); simpl; [|exact IH].
+  destruct (pa_room_ok e); simpl; [|exact IH].
   destruct (pa_content_ok e); simpl; [|discriminate].
   intro H. rewrite H. reflexivity.
 Qed.
@@ -581,6 +575,7 @@ Lemma send_join_admissible_meaning i :
   (ef_authorised_via f = [] \/ sj_authvia_domain i = Some (sj_local_name i)).
 Proof.
   unfold send_join_admissible. intro H. cbv zeta.
+  apply andb_true_iff in H. destruct H as [H _].
   apply andb_true_iff in H. destruct H as [H Hvia].
   apply andb_true_iff in H. destruct H as [H Hmem].
   apply andb_true_iff in H. destruct H as [H Hver].
@@ -649,7 +644,7 @@ Lemma perform_join_admissible_meaning i used :
   pj_make_join_ok i = true /\ pj_send_join_ok i = true /\
   (if used then pj_check_remote i else pj_check_own i) = true /\
   (exists e, In e (pj_auth_events i) /\ pa_type e = m_room_create /\ pa_state_key e = Some [] /\
-             pa_content_ok e = true /\
+             pa_room_ok e = true /\ pa_content_ok e = true /\
              version_known (match pa_room_version e with [] => v_1 | v => v end) = true) /\
   (used = true -> exists r, pj_remote i = Some r /\ pr_parse_ok r = true /\
                   pr_membership r = Some s_join /\ pr_room_id r = pj_room_id i).
@@ -664,6 +659,7 @@ Proof.
     unfold is_known_create in He.
     apply andb_true_iff in He. destruct He as [He Hv].
     apply andb_true_iff in He. destruct He as [He Hco].
+    apply andb_true_iff in He. destruct He as [He Hro].
     apply andb_true_iff in He. destruct He as [Ht Hk].
     destruct (pa_state_key e) as [k|] eqn:Ek; [|discriminate].
     apply bytes_eqb_eq in Hk. subst k.
@@ -722,21 +718,29 @@ Qed.
 (* perform_invite                                                                       *)
 (* ---------------------------------------------------------------------------------- *)
 
+Arguments truncate {A} n l : simpl never.
+
 Definition pi_core_spec (i : pi_input) : bool :=
   match pi_latest_q i with Some le => pl_room_exists le | None => false end &&
-  pi_build_ok i && pi_provider_ok i && pi_allowed_ok i && (pi_target_local i || pi_send_ok i).
+  pi_build_ok i && pi_provider_ok i && pi_allowed_ok i && (pi_target_local i || send_answer_ok (pi_send i)).
+
+(* the event that comes back *)
+Definition pi_event_spec (i : pi_input) (ev : option pi_event) : Prop :=
+  exists le st, pi_latest_q i = Some le /\
+    let built signers := PIBuilt (pi_invitee i) (pl_depth le) (truncate 10 (pl_refs le))
+                                 (truncate 20 (pl_prev le)) signers st in
+    if pi_target_local i then ev = Some (built (both_names (pi_inviter_domain i) (pi_invitee_domain i)))
+    else match pi_send i with
+         | PSNil => ev = Some (built [pi_inviter_domain i])
+         | PSSame true => ev = Some PIRemote
+         | _ => False
+         end.
 
 Lemma pi_core_ok i state log :
   pir_out (pi_core i state log) = OOk ->
-  pi_core_spec i = true /\
-  (pi_target_local i = true ->
-   exists le v, pi_latest_q i = Some le /\
-     pir_event (pi_core i state log) =
-       Some (PIBuilt (pi_invitee i) (pl_depth le) (truncate 10 (pl_refs le)) (truncate 20 (pl_prev le))
-                     [pi_inviter_domain i; pi_invitee_domain i] v)) /\
-  (pi_target_local i = false -> pir_event (pi_core i state log) = Some PIRemote).
+  pi_core_spec i = true /\ pi_event_spec i (pir_event (pi_core i state log)).
 Proof.
-  unfold pi_core, pi_core_spec.
+  unfold pi_core, pi_core_spec, pi_event_spec.
   destruct (pi_needed i) as [[|t ts]|]; simpl; try discriminate.
   destruct (pi_latest_q i) as [le|]; simpl; [|discriminate].
   destruct (pl_room_exists le); simpl; [|discriminate].
@@ -746,30 +750,18 @@ Proof.
   destruct (pi_provider_ok i); simpl; [|discriminate].
   destruct (pi_allowed_ok i); simpl; [|discriminate].
   destruct (pi_target_local i); simpl.
-  - intros _. split; [reflexivity|]. split; [|discriminate].
-    intros _. eexists. eexists. split; reflexivity.
-  - destruct (pi_send_ok i); simpl; [|discriminate].
-    intros _. split; [reflexivity|]. split; [discriminate|reflexivity].
+  - intros _. split; [reflexivity|]. eexists. eexists. split; [reflexivity|]. cbv zeta. reflexivity.
+  - destruct (pi_send i) as [| |[|]|]; simpl; try discriminate; intros _.
+    + split; [reflexivity|]. exists le. eexists. split; reflexivity.
+    + split; [reflexivity|]. exists le, JNull. split; reflexivity.
 Qed.
 
 Lemma perform_invite_ok i :
   pir_out (perform_invite i) = OOk ->
-  perform_invite_admissible i = true /\
-  (pi_target_local i = true ->
-   exists le v, pi_latest_q i = Some le /\
-     pir_event (perform_invite i) =
-       Some (PIBuilt (pi_invitee i) (pl_depth le) (truncate 10 (pl_refs le)) (truncate 20 (pl_prev le))
-                     [pi_inviter_domain i; pi_invitee_domain i] v)) /\
-  (pi_target_local i = false -> pir_event (perform_invite i) = Some PIRemote).
+  perform_invite_admissible i = true /\ pi_event_spec i (pir_event (perform_invite i)).
 Proof.
   assert (W : forall state log, pir_out (pi_with_state i state log) = OOk ->
-    perform_invite_admissible i = true /\
-    (pi_target_local i = true ->
-     exists le v, pi_latest_q i = Some le /\
-       pir_event (pi_with_state i state log) =
-         Some (PIBuilt (pi_invitee i) (pl_depth le) (truncate 10 (pl_refs le)) (truncate 20 (pl_prev le))
-                       [pi_inviter_domain i; pi_invitee_domain i] v)) /\
-    (pi_target_local i = false -> pir_event (pi_with_state i state log) = Some PIRemote)).
+    perform_invite_admissible i = true /\ pi_event_spec i (pir_event (pi_with_state i state log))).
   { intros state log. unfold pi_with_state, perform_invite_admissible.
     destruct (pi_set_unsigned_ok i); simpl; [|discriminate].
     destruct (version_known (pi_version i)); simpl; [|discriminate].
